@@ -324,3 +324,261 @@ pub fn gen_hist(rng: &mut Rng, profile: Profile, size: Size) -> Plan {
     }
     Plan { keys, opens, ops, clients: vec![], tail: vec![] }
 }
+
+#[derive(Clone, Copy, Debug, PartialEq, Eq)]
+pub enum ConcProfile {
+    C05,
+    C06,
+    C09,
+    C03,
+    C07,
+    C11,
+}
+
+fn conc_knobs(rng: &mut Rng, profile: ConcProfile) -> Knobs {
+    let mut k = Knobs::gen(rng);
+    // continuous rotation / flush / compaction
+    k.max_memtable_size = *rng.pick(&[512usize, 700, 1024, 2048, 4096]);
+    k.max_file_size = *rng.pick(&[512u64, 1024, 4096, 16384]);
+    if matches!(profile, ConcProfile::C03 | ConcProfile::C11) && rng.chance(2, 3) {
+        k.table_cache_cap = 2;
+    }
+    k
+}
+
+pub fn gen_conc(rng: &mut Rng, profile: ConcProfile, thorough: bool) -> (Plan, std::collections::BTreeMap<String, i64>) {
+    let mut krng = rng.fork("knobs");
+    let mut prng = rng.fork("plan");
+    let knobs = conc_knobs(&mut krng, profile);
+    let mut params = std::collections::BTreeMap::new();
+    let nkeys = match profile {
+        ConcProfile::C05 => prng.range(2, 8) as usize,
+        ConcProfile::C06 => prng.range(4, 24) as usize,
+        _ => prng.range(3, 16) as usize,
+    };
+    let keys = gen_keys(&mut prng, nkeys);
+    let nkeys = keys.len();
+    let vp = ValProfile { weights: [0, 4, 10, 3, if prng.chance(1, 5) { 1 } else { 0 }, 0, 0], block_ish: knobs.max_block_size as u32, mem_ish: knobs.max_memtable_size as u32 };
+    let mut tags = TagGen::new();
+    let n_clients = prng.range(2, if thorough { 5 } else { 4 }) as usize;
+    let max_ops = if thorough { 60 } else { 36 };
+    // setup
+    let mut ops: Vec<Op> = vec![];
+    let n_setup = prng.usize_below(12);
+    for _ in 0..n_setup {
+        if prng.chance(1, 8) {
+            ops.push(Op::Flush);
+        } else {
+            ops.push(Op::Put { k: prng.usize_below(nkeys), v: tags.val(&mut prng, &vp) });
+        }
+    }
+    let mut clients: Vec<Vec<Op>> = vec![];
+    let mut tail: Vec<Op> = vec![];
+    match profile {
+        ConcProfile::C05 | ConcProfile::C09 => {
+            for _ in 0..n_clients {
+                let n = prng.range(5, max_ops) as usize;
+                let reader_bias = prng.chance(1, 3);
+                let mut c = vec![];
+                let mut snaps: Vec<usize> = vec![];
+                let mut slot = 0usize;
+                while c.len() < n {
+                    let w: [u32; 10] = if profile == ConcProfile::C05 {
+                        if reader_bias {
+                            [10, 3, 3, 60, 0, 0, 0, 0, 0, 0]
+                        } else {
+                            [40, 10, 10, 35, 0, 0, 0, 0, 1, 0]
+                        }
+                    } else {
+                        [40, 8, 8, 15, 6, 5, 6, 4, 3, 6]
+                    };
+                    match prng.weighted(&w) {
+                        0 => c.push(Op::Put { k: prng.usize_below(nkeys), v: tags.val(&mut prng, &vp) }),
+                        1 => c.push(Op::Delete { k: prng.usize_below(nkeys) }),
+                        2 => {
+                            let m = 1 + prng.usize_below(4);
+                            let items = (0..m).map(|_| (prng.usize_below(nkeys), if prng.chance(1, 5) { None } else { Some(tags.val(&mut prng, &vp)) })).collect();
+                            c.push(Op::Batch { items });
+                        }
+                        3 => c.push(Op::Get { k: prng.usize_below(nkeys) }),
+                        4 => {
+                            let a = prng.pick(&keys).clone();
+                            let b = prng.pick(&keys).clone();
+                            let (lo, hi) = if a <= b { (a, b) } else { (b, a) };
+                            let (start, end) = match prng.below(4) {
+                                0 => (None, None),
+                                1 => (None, Some(hi)),
+                                2 => (Some(lo), None),
+                                _ => (Some(lo), Some(hi)),
+                            };
+                            c.push(Op::CompactRange { start, end });
+                        }
+                        5 => c.push(Op::Descriptor { kind: prng.below(9) as u8 }),
+                        6 => {
+                            snaps.push(slot);
+                            c.push(Op::Snap { slot });
+                            slot += 1;
+                        }
+                        7 => {
+                            if !snaps.is_empty() {
+                                let i = prng.usize_below(snaps.len());
+                                c.push(Op::Release { slot: snaps.remove(i) });
+                            }
+                        }
+                        8 => c.push(Op::Flush),
+                        _ => {
+                            c.push(Op::IterOpen { slot, snap: None });
+                            c.push(Op::IterDump { slot });
+                            c.push(Op::IterClose { slot });
+                            slot += 1;
+                        }
+                    }
+                }
+                clients.push(c);
+            }
+            if profile == ConcProfile::C09 {
+                // sometimes close while background work is still in flight
+                params.insert("quiesce_before_final".to_string(), prng.below(2) as i64);
+            }
+        }
+        ConcProfile::C06 => {
+            // writers own disjoint row groups; readers take consistent reads
+            let n_writers = prng.range(1, 3) as usize;
+            let n_readers = prng.range(1, 2) as usize;
+            let mut next_key = 0usize;
+            let mut groups: Vec<Vec<usize>> = vec![];
+            for _ in 0..n_writers {
+                let m = (prng.range(2, 8) as usize).min(nkeys.saturating_sub(next_key));
+                if m < 2 {
+                    break;
+                }
+                groups.push((next_key..next_key + m).collect());
+                next_key += m;
+            }
+            // setup must not touch group keys with differently shaped writes
+            ops.clear();
+            for g in &groups {
+                if prng.chance(1, 2) {
+                    let v = tags.val(&mut prng, &vp);
+                    ops.push(Op::Batch { items: g.iter().map(|k| (*k, Some(v.clone()))).collect() });
+                }
+            }
+            if prng.chance(1, 3) {
+                ops.push(Op::Flush);
+            }
+            for g in &groups {
+                let n = prng.range(4, max_ops) as usize;
+                let mut c = vec![];
+                for _ in 0..n {
+                    if prng.chance(1, 8) {
+                        c.push(Op::Batch { items: g.iter().map(|k| (*k, None)).collect() });
+                    } else {
+                        let mut v = tags.val(&mut prng, &vp);
+                        if prng.chance(1, 10) {
+                            // padded so the batch alone exceeds the memtable budget
+                            v.len = (knobs.max_memtable_size as u32 / g.len() as u32) + 64;
+                        }
+                        c.push(Op::Batch { items: g.iter().map(|k| (*k, Some(v.clone()))).collect() });
+                    }
+                }
+                clients.push(c);
+            }
+            for _ in 0..n_readers {
+                let n = prng.range(4, max_ops) as usize;
+                let mut c = vec![];
+                let mut slot = 0usize;
+                while c.len() < n {
+                    if prng.chance(1, 2) {
+                        c.push(Op::Snap { slot });
+                        if prng.chance(1, 2) {
+                            c.push(Op::SnapDump { slot });
+                        }
+                        c.push(Op::Release { slot });
+                    } else {
+                        c.push(Op::IterOpen { slot, snap: None });
+                        c.push(Op::IterDump { slot });
+                        c.push(Op::IterClose { slot });
+                    }
+                    slot += 1;
+                }
+                clients.push(c);
+            }
+        }
+        ConcProfile::C03 | ConcProfile::C11 => {
+            let n_writers = prng.range(1, 2) as usize;
+            let n_readers = prng.range(1, 2) as usize;
+            for _ in 0..n_writers {
+                let n = prng.range(10, max_ops * 2) as usize;
+                let mut c = vec![];
+                for _ in 0..n {
+                    match prng.weighted(&[30, 8, 4, 2]) {
+                        0 => c.push(Op::Put { k: prng.usize_below(nkeys), v: tags.val(&mut prng, &vp) }),
+                        1 => c.push(Op::Delete { k: prng.usize_below(nkeys) }),
+                        2 => c.push(Op::Flush),
+                        _ => c.push(Op::CompactRange { start: None, end: None }),
+                    }
+                }
+                clients.push(c);
+            }
+            for _ in 0..n_readers {
+                let rounds = prng.range(1, 5) as usize;
+                let mut c = vec![];
+                let mut slot = 0usize;
+                for _ in 0..rounds {
+                    if prng.chance(1, 2) {
+                        c.push(Op::Snap { slot });
+                        for _ in 0..prng.range(1, 4) {
+                            if prng.chance(1, 2) {
+                                c.push(Op::SnapDump { slot });
+                            } else {
+                                c.push(Op::GetSnap { slot, k: prng.usize_below(nkeys) });
+                            }
+                        }
+                        c.push(Op::Release { slot });
+                    } else {
+                        c.push(Op::IterOpen { slot, snap: None });
+                        for _ in 0..prng.range(1, 4) {
+                            c.push(Op::IterDump { slot });
+                        }
+                        c.push(Op::IterClose { slot });
+                    }
+                    slot += 1;
+                }
+                clients.push(c);
+            }
+        }
+        ConcProfile::C07 => {
+            for _ in 0..n_clients.min(3) {
+                let n = prng.range(10, max_ops * 2) as usize;
+                let mut c = vec![];
+                for _ in 0..n {
+                    match prng.weighted(&[30, 10, 5]) {
+                        0 => c.push(Op::Put { k: prng.usize_below(nkeys), v: tags.val(&mut prng, &vp) }),
+                        1 => c.push(Op::Delete { k: prng.usize_below(nkeys) }),
+                        _ => {
+                            let m = 1 + prng.usize_below(3);
+                            let items = (0..m).map(|_| (prng.usize_below(nkeys), Some(tags.val(&mut prng, &vp)))).collect();
+                            c.push(Op::Batch { items });
+                        }
+                    }
+                }
+                clients.push(c);
+            }
+            params.insert("quiesce_before_final".to_string(), 0);
+            params.insert("tail_readers".to_string(), prng.range(1, 2) as i64);
+            params.insert("tail_dumps".to_string(), prng.range(2, 8) as i64);
+            for _ in 0..prng.range(1, 3) {
+                match prng.below(3) {
+                    0 => tail.push(Op::Flush),
+                    1 => tail.push(Op::CompactRange { start: None, end: None }),
+                    _ => {
+                        let a = prng.pick(&keys).clone();
+                        tail.push(Op::CompactRange { start: Some(a), end: None });
+                    }
+                }
+            }
+            tail.push(Op::Quiesce);
+        }
+    }
+    (Plan { keys, opens: vec![knobs], ops, clients, tail }, params)
+}
